@@ -24,7 +24,8 @@ def handleFitting : List String → Option String
       | none => return "ERR"
   | ["fit.acurve", p, ps, cds, nc] => do
       let p ← p.toNat?; let P ← parsePts ps; let cds ← parseList cds; let nc ← nc.toNat?
-      if p = 0 || nc < p + 1 || P.length < nc || cds.length + 1 != P.length then return "ERR"
+      -- with 2 control points `N` has no column and `matrix_multiply` raises IndexError (recorded finding F-11a)
+      if p = 0 || nc < p + 1 || nc < 3 || P.length < nc || cds.length + 1 != P.length then return "ERR"
       match approximateCurve p P cds nc floorRat with
       | some (kv, cp) => return s!"{showList kv} {showPts cp}"
       | none => return "ERR"
